@@ -21,10 +21,12 @@ def showOptNat : Option Nat → String
   | none => "none"
   | some n => toString n
 
+/-- `ok`, or `fail:` followed by EVERY failing clause (joined with `+`), so that a known-finding
+entry, which names the clause(s) it excuses, cannot hide a second, new failure on the same case. -/
 def verdict (clauses : List (String × Bool)) : String :=
-  match clauses.find? (fun c => !c.2) with
-  | none => "ok"
-  | some c => "fail:" ++ c.1
+  match (clauses.filter (fun c => !c.2)).map (·.1) with
+  | [] => "ok"
+  | fs => "fail:" ++ String.intercalate "+" fs.eraseDups
 
 def bad : String × String := ("bad-case", "fail:bad-case")
 
